@@ -98,7 +98,7 @@ Definition json_cut (data : bytes) (index strlen limit : Z) : res bytes :=
   end.
 
 (* several paths: every position is found on the ORIGINAL document, then the positions are sorted by
-   descending start and cut one after the other *)
+   descending start and cut one after the other (a string named twice: once) *)
 Fixpoint insert_desc (p : Z * Z) (l : list (Z * Z)) : list (Z * Z) :=
   match l with
   | [] => [p]
@@ -113,10 +113,18 @@ Fixpoint json_find_all (data : bytes) (found : list (Z * Z * Z)) : res (list (Z 
       ps <- json_find_all data r ;;
       Ok (match p with Some p => p :: ps | None => ps end)
   end.
+(* for i, p := range cutPositions { if i+1 < len && cutPositions[i+1].end == p.end { continue }; cut p }
+   (a08bbd4): two paths may name the same string (a and \a); its positions have the same end and are
+   adjacent after the sort; only the last of them - the smallest start - is cut *)
 Fixpoint json_cut_all (data : bytes) (ps : list (Z * Z)) : res bytes :=
   match ps with
   | [] => Ok data
-  | p :: r => d <- json_cut_at data p ;; json_cut_all d r
+  | p :: r =>
+      match r with
+      | q :: _ => if snd q =? snd p then json_cut_all data r
+                  else d <- json_cut_at data p ;; json_cut_all d r
+      | [] => d <- json_cut_at data p ;; json_cut_all d r
+      end
   end.
 Definition json_cut_many (data : bytes) (found : list (Z * Z * Z)) : res bytes :=
   ps <- json_find_all data found ;;
@@ -167,20 +175,25 @@ Fixpoint json_fields_doc (fs : list (bytes * bytes)) : bytes :=
   | (raw, post) :: r => QUOTE :: raw ++ QUOTE :: post ++ json_fields_doc r
   end.
 
-(* several limited strings: (raw text, the bytes that follow it up to the next one, len(Str), limit);
-   the document, what gjson reports for them (the first opening quote is at offset [at_]), the result *)
-Definition jfield : Type := bytes * bytes * Z * Z.
+(* several limited strings: (raw text, the bytes that follow it up to the next one, len(Str), a limit,
+   further limits given for the SAME string by other paths); the document, what gjson reports (one
+   answer per path; the first opening quote is at offset [at_]), the result: every string is cut by the
+   smallest of its limits *)
+Definition jfield : Type := bytes * bytes * Z * Z * list Z.
+Definition jf_limit (limit : Z) (more : list Z) : Z := fold_right Z.min limit more.
 Definition jf_doc (fs : list jfield) : bytes :=
-  json_fields_doc (map (fun '(raw, post, _, _) => (raw, post)) fs).
+  json_fields_doc (map (fun '(raw, post, _, _, _) => (raw, post)) fs).
 Definition jf_cut (fs : list jfield) : bytes :=
-  json_fields_doc (map (fun '(raw, post, strlen, limit) => (firstn (json_kept raw strlen limit) raw, post)) fs).
+  json_fields_doc (map (fun '(raw, post, strlen, limit, more) =>
+                          (firstn (json_kept raw strlen (jf_limit limit more)) raw, post)) fs).
 Fixpoint jf_found (at_ : Z) (fs : list jfield) : list (Z * Z * Z) :=
   match fs with
   | [] => []
-  | (raw, post, strlen, limit) :: r => (at_, strlen, limit) :: jf_found (at_ + len raw + 2 + len post) r
+  | (raw, post, strlen, limit, more) :: r =>
+      map (fun l => (at_, strlen, l)) (limit :: more) ++ jf_found (at_ + len raw + 2 + len post) r
   end.
 Definition jf_ok (f : jfield) : Prop :=
-  let '(raw, _, _, limit) := f in esc_valid raw = true /\ 0 <= limit.
+  let '(raw, _, _, limit, more) := f in esc_valid raw = true /\ 0 <= limit /\ Forall (fun l => 0 <= l) more.
 
 (* the strings of fs shortened to their first ks bytes *)
 Fixpoint cut_doc (fs : list (bytes * bytes)) (ks : list nat) : bytes :=
@@ -188,7 +201,7 @@ Fixpoint cut_doc (fs : list (bytes * bytes)) (ks : list nat) : bytes :=
   | (raw, post) :: r, k :: ks' => QUOTE :: firstn k raw ++ QUOTE :: post ++ cut_doc r ks'
   | _, _ => []
   end.
-Definition jf_pairs (fs : list jfield) : list (bytes * bytes) := map (fun '(raw, post, _, _) => (raw, post)) fs.
+Definition jf_pairs (fs : list jfield) : list (bytes * bytes) := map (fun '(raw, post, _, _, _) => (raw, post)) fs.
 
 (* ---- the executable form of "only the named strings were shortened" (the runner's verdict) ------- *)
 (* [fs] = the named strings in document order with the bytes that follow each;
